@@ -129,6 +129,14 @@ pub fn sd_jwt(cex: &Value) -> Result<String, String> {
     let okid = format!("{OTHER}#auth");
     let kb_other = sign_typed(&kb_claims("n1", "aud1", t0, jwt.as_str(), &disclosures), &okid, KeyBindingJwtClaims::KB_JWT_HEADER_TYP, &method_key(OTHER, "#auth"));
     kexpect("signed by another holder", k(&sd(Some(kb_other), disclosures.clone()), &kopts()), false);
+    // a holder-chosen `iat` at the ends of the integer range: rejected (or accepted without bounds), never a panic
+    for iat in [i64::MIN, i64::MIN + 1, i64::MIN + 4, i64::MIN + 59, i64::MIN + 3600, i64::MAX, i64::MAX - 1, i64::MAX - 59, i64::MAX - 3600, -62167219201, 253402300800] {
+      let kbx = sign_typed(&kb_claims("n1", "aud1", iat, jwt.as_str(), &disclosures), &hkid, KeyBindingJwtClaims::KB_JWT_HEADER_TYP, &method_key(HOLDER, "#auth"));
+      kexpect(&format!("iat = {iat}"), k(&sd(Some(kbx.clone()), disclosures.clone()), &kopts()), false);
+      if let Err(msg) = k(&sd(Some(kbx), disclosures.clone()), &KeyBindingJWTValidationOptions::new()) {
+        log.borrow_mut().push(format!("[kb-panic] iat = {iat}, no bounds: validate_key_binding_jwt panicked: {msg}"));
+      }
+    }
     let mut o = kopts();
     o.jws_options = JwsVerificationOptions::default().method_scope(MethodScope::assertion_method());
     kexpect("scope excluding the holder method", k(&sd(Some(kb.clone()), disclosures.clone()), &o), false);
